@@ -357,9 +357,65 @@ def tuple_opacity_probe(ctx, xt):
                  {"list_interface_ok": bool(ok), "flat_interface_ok": bool(ok2)}, "slots 0 and 2 of the list hold the supplied tensors, the tuple is preserved")
 
 
+def dtype_and_shape_history_probe(ctx, xt):
+    """(a) tensors of different dtypes in one structure: the flat interface keeps the VALUES (torch.cat promotes to the widest
+    dtype; round-4 seed C20/11: everything cast to the dtype of the first tensor);  (b) unique=True with aliased slots of
+    different shapes: the shape check is per DISTINCT tensor (round-4 seed C20/10);  (c) a held tensor reshaped in place between two
+    uses of one Packer: lists and reconstructions follow the current shapes (round-4 seed C20/12: shapes cached at first use)"""
+    ti = torch.tensor([3, -2, 5], dtype=torch.int64)
+    tf = torch.tensor([[0.25, 1.5], [-0.75, 2.0]], dtype=torch.float64)
+    th = torch.tensor([0.5, -1.25], dtype=torch.float32)
+    for name, obj, parts in (("int64-first", [ti, {"w": tf}], [ti, tf]), ("float32-first", {"a": th, "b": [tf, ti]}, [th, tf, ti])):
+        pk = xt.Packer(obj)
+        ctx.count(("mixed-dtypes", name), nontrivial=True)
+        try:
+            flat = pk.get_param_tensor(unique=False)
+            back = xt.Packer(pk.construct_from_tensor(flat, unique=False)).get_param_tensor_list(unique=False)
+        except Exception as e:
+            ctx.fail("oracle", "packer:mixed-dtypes:exception", {"structure": name}, repr(e)[:200], "a flat tensor and its round trip")
+            continue
+        if len(back) != len(parts) or any(b_.shape != p_.shape or not torch.equal(b_.to(torch.float64), p_.to(torch.float64)) for b_, p_ in zip(back, parts)):
+            ctx.fail("oracle", "packer:mixed-dtypes:values-lost", {"structure": name, "dtypes": [str(p_.dtype) for p_ in parts]},
+                     [b_.tolist() for b_ in back], [p_.tolist() for p_ in parts])
+    a2, b2 = torch.zeros(2, 3, dtype=torch.float64), torch.ones(4, dtype=torch.float64)
+    pk = xt.Packer([a2, {"x": a2}, b2])
+    pk.get_param_tensor_list(unique=True)            # the documented order of use: list first, then construct
+    ctx.count(("unique-shapes",), nontrivial=True)
+    try:
+        na, nb = torch.zeros(2, 3, dtype=torch.float64) + 5, torch.zeros(4, dtype=torch.float64) + 6
+        r = pk.construct_from_tensor_list([na, nb], unique=True)
+        if not (r[0] is na and r[1]["x"] is na and r[2] is nb):
+            ctx.fail("oracle", "packer:unique-shapes:positions", {"slots": "[a, {x: a}, b], a (2,3), b (4,)"}, "wrong positions", "a', a', b'")
+    except Exception as e:
+        ctx.fail("oracle", "packer:unique-shapes:rejected", {"slots": "[a, {x: a}, b], a (2,3), b (4,)"}, repr(e)[:200], "a correct unique list is accepted")
+    try:
+        pk.construct_from_tensor_list([torch.zeros(2, 3, dtype=torch.float64), torch.zeros(2, 3, dtype=torch.float64)], unique=True)
+        ctx.fail("oracle", "packer:unique-shapes:wrong-shape-accepted", {"slots": "[a, {x: a}, b]", "supplied": "(2,3), (2,3)"}, "no error", "rejected")
+    except (RuntimeError, AssertionError, ValueError, IndexError):
+        pass
+    w_ = torch.arange(6, dtype=torch.float64).reshape(2, 3)
+    pk = xt.Packer({"w": w_, "k": 1})
+    pk.get_param_tensor_list(unique=False)
+    pk.get_param_tensor(unique=False)
+    w_.t_()                                            # now (3, 2), in place
+    ctx.count(("shape-history",), nontrivial=True)
+    try:
+        lst = pk.get_param_tensor_list(unique=False)
+        ok_new = pk.construct_from_tensor_list([torch.zeros(3, 2, dtype=torch.float64)], unique=False)["w"].shape == (3, 2)
+        flat = pk.get_param_tensor(unique=False)
+        back = pk.construct_from_tensor(flat, unique=False)["w"]
+        if not ok_new or back.shape != (3, 2) or not torch.equal(back, w_):
+            ctx.fail("oracle", "packer:shape-history", {"sequence": ["get_*", "w.t_() in place", "get_*", "construct_*"]},
+                     {"shape": list(back.shape), "values": back.tolist()}, {"shape": [3, 2], "values": w_.tolist()})
+    except Exception as e:
+        ctx.fail("oracle", "packer:shape-history:exception", {"sequence": ["get_*", "w.t_() in place", "get_*", "construct_*"]}, repr(e)[:200],
+                 "the current shape is the one that counts")
+
+
 def check(ctx):
     import xitorch as xt
     tuple_opacity_probe(ctx, xt)
+    dtype_and_shape_history_probe(ctx, xt)
     rng = ctx.rng
     ncases = ctx.n(400, 3000)
     cases, meta = [], []
